@@ -227,7 +227,7 @@ def conditions(tier):
                                      for k, x in fx.items())
         cs.append(make_cond(
             nm, make_idem(c03.make_nest(full, ('DATA',))), run_twice, judge_twice, fx,
-            timeout=400, group='M-idem', real=False, twin=False,
+            timeout=1500 if full else 400, group='M-idem', real=False, twin=False,
             descr='update+save twice on the model (S-nest of C03); second round writes '
                   'nothing', bounds='C03 S-nest; force off'
                   + ('' if full else '; whole-tree update; link not stale')))
